@@ -45,6 +45,7 @@ type Machine struct {
 	schedSteps   int
 	harnessPkg   *ssa.Package
 	lastPos      token.Pos
+	expectExit   int
 	schedLog     []string
 	sleep        map[string]tkey
 	onceDone     map[*Value]bool
@@ -275,6 +276,12 @@ func (m *Machine) require(ok *Term, kind, msg string) {
 		m.asserts++
 	}
 	if ok == True {
+		return
+	}
+	if m.expectExit > 0 && m.expectPanic == 0 && kind == "panic" && strings.HasPrefix(msg, "process exit") {
+		if m.decide([]*Term{ok, Not(ok)}) == 1 {
+			panic(goPanic{msg})
+		}
 		return
 	}
 	if m.expectPanic > 0 && kind == "panic" {
